@@ -32,7 +32,7 @@ CHECKS = {
          "Preflights over generated method/header requests and configurations; grants must be justified by the configuration or by methods a filter-less twin actually routes; successive preflights for different URLs on one filter value must each follow their own URL; WebServices with and without dynamic routes; origins on the request's own host under the other scheme; preflights while a route comes and goes (a grant lists the method it was asked for).", "Fragment of C17 when AllowedMethods is empty.", "DESIGN §6 C09"),
  "C10": ("fault_enumeration", "crash-point enumeration with recover()/RecoverHandler/ledger monitors and post-panic probe replay",
          "Panics are injected at every enumerated chain position (each filter before/after passing control, handler before/between/after writes, error handler) x recovery x coding x provider x entry point; monitors check single delivery to the recover handler, status/body completeness, propagation when recovery is off, compressor ledger balance, and unchanged answers to follow-up probes plus Add/Remove.",
-         "HandleWithFilter excluded (the property speaks of routed dispatch). Sequences include panicking requests from a client whose connection fails on every write; the default recover report must occur exactly once per response; 300 containers configured from two goroutines at once.", "DESIGN §6 C10"),
+         "HandleWithFilter excluded (the property speaks of routed dispatch). Sequences include panicking requests from a client whose connection fails on every write; the default recover report must occur exactly once per response; 3000 containers configured from two goroutines at once.", "DESIGN §6 C10"),
  "C11": ("exploration", "history-vs-fresh differential monitor over generated registration histories",
          "Random histories over Add/Remove/Route/RemoveRoute/Handle on colliding root paths (also 33/70 services, once per process a container on http.DefaultServeMux); after every operation a fresh container is built from the model and both must answer a derived probe set identically via ServeHTTP and Dispatch; where an executable reference of the ServeMux registration policy says the framework owns a clean URL, ServeHTTP and Dispatch of the history-built container must answer alike; Add must never panic/exit and every registration call runs under a goroutine-state watchdog.",
          "Histories never add duplicate roots (library exits by contract).", "DESIGN §6 C11"),
